@@ -4,4 +4,7 @@ ASSUME FormsAreGaps
 \* one plan per (form, left class, right class): emitted once, from the initial state
 Plans == {[form |-> f, cl |-> a, cr |-> b] : f \in Forms, a \in Classes, b \in Classes}
 EmitPlans == (gap = <<>>) => \A p \in {q \in Plans : Applicable(q.form, q.cl, q.cr)} : PrintT(<<"CASE", ToJson(p)>>)
+\* every complete gap the grammar generates, for the harness to put between tokens (symbols; the harness writes s = space,
+\* n = line feed, d = "-", t = "*", l = "/", x = a letter)
+EmitGaps == (open = 0 /\ ~inline /\ gap # <<>>) => PrintT(<<"GAP", ToJson(gap)>>)
 =============================================================================
